@@ -223,7 +223,12 @@ static void vh_after_gc(sexp ctx) {
   if (vh_in_gc > 0) vh_in_gc--;
   if (vh_heapcheck) {
     vh_heapcheck_runs++;
-    vh_check_heap(ctx, 1, NULL);
+    if (!vh_check_heap(ctx, 1, NULL) && vh_heapcheck > 1) {
+      /* triage mode: stop at the first malformed heap */
+      fprintf(stderr, "\n;;HEAPCHECK-FAIL %s\n", vh_heapcheck_msg);
+      fflush(stderr);
+      _exit(11);
+    }
   }
   if (vh_poison) vh_poison_free_chunks(sexp_context_heap(ctx));
 }
